@@ -57,7 +57,7 @@ def run(ctx: common.Ctx):
         'callVariant vs Spec.callVariant evaluated by the native Lean driver over ALL compatible '
         'subsets of the usable records; half of the cases are re-run with other node-collapsing '
         'parameters; plus two-gene inputs with ONE fusion (exonic / intronic breakpoints, coding and '
-        'non-coding donors) and single-gene inputs with ONE circRNA / ciRNA, each with small records: real '
+        'non-coding donors), single-gene inputs with ONE circRNA / ciRNA, and two-gene inputs with a fusion AND a circRNA of the donor (three GVF files), each with small records: real '
         'FASTA vs union of Spec.callVariant per transcript and Spec.callBackbone / Spec.callCirc. '
         'non-trivial = definition or tool reports >= 1 peptide. Layer G: in the trypsin-noexc and '
         'all-enzymes streams the graphs the real run built after create_variant_graph / fit_into_codons / '
@@ -89,7 +89,7 @@ def run(ctx: common.Ctx):
     judge(ctx, res, 'nested-in-splicing')
     cv_checks.judge_checkpoints(ctx, res, 'missing')
     stats5 = dict(ctx.coverage['worker_stats'])
-    for kind, n in (('fusion', ctx.n(90, 1500)), ('circ', ctx.n(90, 1500))):
+    for kind, n in (('fusion', ctx.n(90, 1500)), ('circ', ctx.n(90, 1500)), ('combo', ctx.n(70, 1200))):
         bres = cv_checks.explore_backbone(ctx, kind, n, dict(exception=None))
         for r in bres:
             if 'crash' in r:
